@@ -1,6 +1,7 @@
 import Driver.Proto
 import SqlVerif.Model.Pratt
 import SqlVerif.Gen.Dialects
+import SqlVerif.Model.SetClimb
 /-! Streams `prec` and `chains` (property C04): decode the canonical token rendering of
 `rust/harness/src/canon.rs`, run the Pratt model, print the answer line. -/
 namespace Driver.Pr
@@ -52,6 +53,80 @@ def handleChains (args : List String) : String :=
       | .ok (e, rest) => "OK " ++ e.sexp ++ " REST " ++ toString rest.length
       | .error er => errLine er
     | _, _ => "bad-dialect"
+  | _ => "bad-request"
+
+-- ------------------------------------------------------------------ stream `setops`
+open SqlVerif.SetClimb in
+def oneSTok (t : Tok) : STok :=
+  if t.isKw (kwIndex "UNION") then .op .union
+  else if t.isKw (kwIndex "EXCEPT") then .op .except
+  else if t.isKw (kwIndex "INTERSECT") then .op .intersect
+  else if t.isKw KW.ALL then .all
+  else if t.isKw KW.DISTINCT then .distinct
+  else if t.isKw (kwIndex "BY") then .by_
+  else if t.isKw (kwIndex "NAME") then .name
+  else if t.isSym .LParen then .lparen
+  else if t.isSym .RParen then .rparen
+  else .other
+
+open SqlVerif.SetClimb in
+/-- real tokens → the alphabet of `Model/SetClimb.lean` (`SELECT n` becomes one `sel n`) -/
+def toSTok : List Tok → List STok
+  | [] => []
+  | [t] => [oneSTok t]
+  | t :: t2 :: rest =>
+    if t.isKw (kwIndex "SELECT") then
+      match t2 with
+      | .number s false =>
+        match (String.ofList (s.map Char.ofNat)).toNat? with
+        | some n => .sel n :: toSTok rest
+        | none => .other :: toSTok (t2 :: rest)
+      | _ => .other :: toSTok (t2 :: rest)
+    else oneSTok t :: toSTok (t2 :: rest)
+
+open SqlVerif.SetClimb in
+def stokDisplay : Option STok → String
+  | none => "EOF"
+  | some (.sel _) => "SELECT"
+  | some (.op .union) => "UNION"
+  | some (.op .except) => "EXCEPT"
+  | some (.op .intersect) => "INTERSECT"
+  | some .all => "ALL" | some .distinct => "DISTINCT" | some .by_ => "BY" | some .name => "NAME"
+  | some .lparen => "(" | some .rparen => ")" | some .other => "?"
+
+open SqlVerif.SetClimb in
+def stokLen : List STok → Nat
+  | [] => 0
+  | .sel _ :: r => 2 + stokLen r
+  | _ :: r => 1 + stokLen r
+
+open SqlVerif.SetClimb in
+def setSexp : SetExpr → String
+  | .sel n => s!"(sel {n})"
+  | .query e => "(query " ++ setSexp e ++ ")"
+  | .setOp l o q _ r =>
+    let on := match o with | .union => "union" | .except => "except" | .intersect => "intersect"
+    let qn := match q with
+      | .all => "all" | .distinct => "distinct" | .byName => "byName" | .allByName => "allByName"
+      | .distinctByName => "distinctByName" | .none => "none"
+    "(setop " ++ on ++ " " ++ qn ++ " " ++ setSexp l ++ " " ++ setSexp r ++ ")"
+
+open SqlVerif.SetClimb in
+/-- `setops <dialect> <limit> <tokens>`; the dialect plays no role in this part of the parser -/
+def handleSetops (args : List String) : String :=
+  match args with
+  | [_, lim, toks] =>
+    match lim.toNat? with
+    | some l =>
+      let ts := toSTok (decodeToks toks)
+      match parseQuery (4 * ts.length + 16) l ts with
+      | .ok (e, rest) => "OK " ++ setSexp e ++ " REST " ++ toString (stokLen rest)
+      | .error .rle => "ERR:rle"
+      | .error (.expected what found) =>
+        "ERR:syntax:" ++ encodeCps (str ("Expected: " ++ what ++ ", found: " ++ stokDisplay found))
+      | .error .unsupported => "UNSUPPORTED"
+      | .error .fuel => "FUEL"
+    | none => "bad-request"
   | _ => "bad-request"
 
 end Driver.Pr
